@@ -105,6 +105,9 @@ def model_lines(a, b, include, url_rules='jsessionid'):
     old_doc, new_doc = enc_doc(soup_old), enc_doc(soup_new)
     pal = get_color_palette()
     out = []
+    # get_title is modelled too (doc_title): both pages' titles, model vs implementation
+    out.append(('title-old', 'doc_title %s' % old_doc, h.get_title(soup_old)))
+    out.append(('title-new', 'doc_title %s' % new_doc, h.get_title(soup_new)))
     for kind, body in bodies.items():
         out.append((kind, 'render_view %s %s %s %s %s %s %s' % (
             I(KINDS.index(kind)), old_doc, new_doc, L([L([I(c), S(t)]) for c, t in title_ops]), S(pal['differ_insertion']), S(pal['differ_deletion']),
@@ -270,8 +273,9 @@ def run(rep, ctx):
                                                           'call': 'html_diff_render(a_text, b_text, include=%r)' % include})
             if ctx['model_available'] and structure and (idx % 2 == 0 or idx >= len(docs)):
                 try:
-                    for kind, line in model_lines(a, b, include):
-                        corr.append((a, b, include, kind, line, result.get(kind), env))
+                    for item in model_lines(a, b, include):
+                        kind, line = item[0], item[1]
+                        corr.append((a, b, include, kind, line, item[2] if len(item) == 3 else result.get(kind), env))
                 except OutOfDomain:
                     dist['out_of_model_domain'] += 1
                 except Exception as e:  # noqa  (the mirror of the first steps failed although the real call did not)
